@@ -95,3 +95,50 @@ def round_half_away(repo, rep, rule):
             wrong.append((x, ps[0].value, want))
     rep.check(not wrong, rule, site, f"rounds half away from zero on all {n} probe points (ties and non-ties of both signs)",
               "; ".join(f"round_away_zero({x}) = {g}, std::round gives {w}" for x, g, w in wrong[:4]))
+
+
+def call_axis_agreement(repo, rep, rule):
+    """Where a repo function / constructor names a parameter after an axis or side (stride_y, width, pad_top ...), every
+    call must feed it a value of that axis: `Kernel(w, h, stride_x, stride_x, ...)` puts a W quantity into the H slot.
+    Callees are resolved by unique simple name over the analysed modules; arguments without axis-typed leaves and
+    ambiguous callee names are not counted."""
+    from ..roles import RoleChecker, name_axis
+
+    rc = RoleChecker()
+    idx = {}
+    for m in repo.core_modules():
+        for q, fn in m.functions.items():
+            nm = q.split(".")[-1]
+            if nm == "__init__" and "." in q:
+                nm = q.split(".")[-2]
+            idx.setdefault(nm, []).append((m, q, fn))
+    n = 0
+    for m in repo.core_modules():
+        for q, fn in m.functions.items():
+            for c in ast.walk(fn):
+                if not isinstance(c, ast.Call):
+                    continue
+                cn = call_name(c)
+                if not cn:
+                    continue
+                nm = cn.split(".")[-1]
+                if len(idx.get(nm, ())) != 1:
+                    continue
+                tm, tq, tfn = idx[nm][0]
+                params = [a.arg for a in tfn.args.args]
+                if params and params[0] in ("self", "cls"):
+                    params = params[1:]
+                pairs = [(params[i], a) for i, a in enumerate(c.args) if i < len(params) and not isinstance(a, ast.Starred)]
+                pairs += [(k.arg, k.value) for k in c.keywords if k.arg in params]
+                for p, a in pairs:
+                    pa = name_axis(p)
+                    if not pa:
+                        continue
+                    leaves = rc.axes(a)
+                    if not leaves:
+                        continue
+                    n += 1
+                    bad = [(ax, t) for ax, t in leaves if ax != pa]
+                    rep.check(not bad, rule, f"ethosu/vela/{m.name}.py:{q}", f"{norm(c)[:80]}: parameter `{p}` ({pa} axis) of {tq} receives a {pa}-axis value",
+                              f"receives {', '.join(f'{t} ({ax})' for ax, t in bad)}")
+    return n
